@@ -108,10 +108,22 @@ def gen_case(rng: random.Random, tier: str, bias: str = ''):
     # two independent manager servers in 40 % of the cases: every object lives on one of them; proxies of objects of
     # one server travel as arguments / stored values into calls on objects of the other.  Otherwise, in a quarter of
     # the cases, the single manager has an explicit authkey that differs from the processes' own key.
-    two = bias == 'two' or (bias != 'authkey' and rng.random() < 0.4)
-    akey = bias == 'authkey' or (not two and rng.random() < 0.25)
+    two = bias in ('two', 'mixed') or (bias != 'authkey' and rng.random() < 0.4)
+    # mixed keys: two managers of which exactly ONE (A) has an explicit authkey.  Proxies cross in the supported
+    # direction only: objects of the default-key manager B as arguments / stored values of calls on objects of either
+    # manager (a process inside B does not know A's key, so a proxy of an A-object cannot be rebuilt in B: stdlib design)
+    mixed = bias == 'mixed' or (two and rng.random() < 0.4)
+    akey = bias == 'authkey' or mixed or (not two and rng.random() < 0.25)
     for o in objs:
         o['srv'] = rng.choice(['A', 'B']) if two else 'A'
+    if mixed and len({o['srv'] for o in objs}) < 2:
+        objs[0]['srv'], objs[-1]['srv'] = 'A', 'B'
+    pobjs = [o for o in objs if o['srv'] == 'B'] if mixed else objs       # whose proxies may travel as values
+    srv_of_addr = {}
+    for o in objs:
+        for key in ('addr', 'log', 'mem', 'disk'):
+            if key in o:
+                srv_of_addr[o[key]] = o['srv']
     n_clients = rng.choice([2, 2, 3])
     clients = [str(c) for c in range(n_clients)]
     n_ops = rng.choice([3, 6, 12]) if not big else rng.choice([12, 30, 60])
@@ -127,12 +139,12 @@ def gen_case(rng: random.Random, tier: str, bias: str = ''):
         return hs
 
     def list_handles(c):
-        return [(h, a) for h, a, k in target_handles(c) if k == 'list']
+        return [(h, a) for h, a, k in target_handles(c) if k == 'list' and (not mixed or srv_of_addr.get(a) == 'B')]
 
     def one_op(c):
         h, a, kind = rng.choice(target_handles(c))
         is_view = not h.startswith('o')
-        val = lambda: gen_value(rng, objs, allow_proxy=not is_view)   # noqa: E731
+        val = lambda: gen_value(rng, pobjs, allow_proxy=not is_view)   # noqa: E731
         idx = lambda: rng.choice([0, 0, 1, -1, 2, -2, 5, -7])         # noqa: E731
         if kind == 'list':
             m = rng.choice(['append', 'append', 'extend', 'insert', 'popLast', 'pop', 'getitem', 'setitem',
@@ -252,7 +264,10 @@ def gen_case(rng: random.Random, tier: str, bias: str = ''):
             return dict(who=c, h=h, addr=a, m=m, py=['fail', [tag, payload]], fail=tag)
         if m == 'relayFail':
             # this Counter calls `fail` of a hosted Counter (another one or itself) through a proxy, inside the server
-            tgt = rng.choice([o for o in objs if o['kind'] == 'counter'])
+            tgts = [o for o in pobjs if o['kind'] == 'counter']
+            if not tgts:
+                return dict(who=c, h=h, addr=a, m='cget', py=['get', []])
+            tgt = rng.choice(tgts)
             tag = rng.choice(sorted(FAIL))
             payload = gen_value(rng, objs, allow_proxy=False)
             return dict(who=c, h=h, addr=a, m=m, py=['relay_fail', [{'$h': f'o{tgt["addr"]}'}, tag, payload]],
@@ -265,7 +280,7 @@ def gen_case(rng: random.Random, tier: str, bias: str = ''):
         if m == 'snapshot':
             return dict(who=c, h=h, addr=a, m=m, py=['snapshot', []])
         if m == 'echo':
-            vs = [gen_value(rng, objs) for _ in range(rng.choice([0, 1, 3]))]
+            vs = [gen_value(rng, pobjs) for _ in range(rng.choice([0, 1, 3]))]
             kw = {'$dict': [['kw', gen_value(rng, objs, allow_proxy=False)]]} if rng.random() < 0.5 else None
             return dict(who=c, h=h, addr=a, m=m, py=['echo', vs], kwargs=kw, mlist=vs, keep=True)
         lh = list_handles(c)
@@ -361,6 +376,7 @@ def gen_case(rng: random.Random, tier: str, bias: str = ''):
             steps.append(dict(who=c, h=h, addr=a, m='cget', py=['get', []], final=True))
             steps.append(dict(who=c, h=h, addr=a, m='snapshot', py=['snapshot', []], final=True))
     return dict(kind='proxycall', objs=objs, clients=clients, ops=steps, two_servers=two, authkey='abc' if akey else None,
+                mixed_keys=mixed,
                 proc_cls=rng.choice(['mpservice', 'stdlib']), seed=rng.randrange(1 << 30))
 
 
@@ -513,6 +529,25 @@ def boundary_cases():
          dict(who='1', h='o1', addr=1, m='dpop', py=['pop', ['a']], margs=['a'], keep=True)]
     out.append(dict(kind='proxycall', objs=tobjs, clients=['0', '1'], ops=t + _finals(tobjs), proc_cls='mpservice', seed=0,
                     two_servers=True, authkey=None, boundary='two-servers'))
+    # mixed keys: manager A has an explicit authkey, B the default one; proxies of B-objects as arguments / stored values
+    # of calls on A-objects (rebuilt inside A's server, which must talk to B with B's key), read back by another process
+    xobjs = [dict(addr=0, kind='list', init=[], srv='A'), dict(addr=1, kind='dict', srv='B'),
+             dict(addr=2, kind='counter', init=0, log=3, srv='A'), dict(addr=4, kind='list', init=[2], srv='B'),
+             dict(addr=5, kind='counter', init=1, log=6, srv='B')]
+    x = [dict(who='0', h='o0', addr=0, m='append', py=['append', [{'$h': 'o1'}]], margs=[{'$h': 'o1'}]),
+         dict(who='1', h='o0', addr=0, m='getitem', py=['__getitem__', [0]], mint=[0], keep=True),
+         dict(who='1', h='o2', addr=2, m='poke', py=['poke', [{'$h': 'o4'}, 'p']], mref=4, margs=['p']),
+         dict(who='0', h='o2', addr=2, m='echo', py=['echo', [{'$h': 'o1'}, 3, {'$h': 'o4'}]], mlist=[{'$h': 'o1'}, 3, {'$h': 'o4'}], keep=True),
+         dict(who='0', h='o2', addr=2, m='relayFail', py=['relay_fail', [{'$h': 'o5'}, 'key', 'k']], mref=5, fail='key'),
+         dict(who='1', h='o2', addr=2, m='pokePop', py=['poke_pop', [{'$h': 'o4'}]], mref=4, keep=True),
+         dict(who='1', h='o1', addr=1, m='dset', py=['__setitem__', ['k', {'$h': 'o4'}]], margs=['k', {'$h': 'o4'}]),
+         dict(who='0', h='o1', addr=1, m='dget', py=['__getitem__', ['k']], margs=['k'], keep=True),
+         dict(who='0', h='o0', addr=0, m='iadd', inplace=['iadd', [{'$h': 'o5'}, 1]], mlist=[{'$h': 'o5'}, 1]),
+         dict(who='1', h='o0', addr=0, m='slice', py=sl2, keep=True),
+         dict(who='1', h='o0', addr=0, m='popLast', py=['pop', []], keep=True)]
+    for pc in ('mpservice', 'stdlib'):
+        out.append(dict(kind='proxycall', objs=xobjs, clients=['0', '1'], ops=x + _finals(xobjs), proc_cls=pc, seed=0,
+                        two_servers=True, authkey='abc', mixed_keys=True, boundary='mixed-keys'))
     kobjs = [dict(addr=0, kind='list', init=[], srv='A'), dict(addr=1, kind='dict', srv='A'), dict(addr=2, kind='ns', srv='A')]
     ka = [dict(who='0', h='o0', addr=0, m='append', py=['append', [{'$h': 'o1'}]], margs=[{'$h': 'o1'}]),
           dict(who='0', h='o0', addr=0, m='getitem', py=['__getitem__', [0]], mint=[0], keep=True),
